@@ -123,6 +123,15 @@ def run(ctx):
     res = vlib.eval_cases(d)
     ctx.rules.append("deadlock scenarios: {rpc watcher driven directly, rpc watcher with its own goroutines, electrum watcher} x {swap-in sender, swap-out receiver} x CSV {not yet, just, long matured} when the trigger is delivered x trigger {cancel, coop close whose spend fails, invalid message} x order {trigger first, block notification first, concurrent with seeded jitter}; every injected call runs in its own goroutine, watchdog 5 s; observed = all calls returned, persisted final state, CSV spends built, active map; non-trivial: all; distinct by scenario tuple")
     ctx.absorb(res, "c18", signature=sig, mismatch_is_violation=False, describe=describe)
+    # 3. the block dispatcher of the real RPC watcher while / after a slow confirmation callback
+    d2 = ctx.harness("c18disp", outdir=ctx.work + "/disp", timeout=300)
+    if d2 is not None:
+        res2 = vlib.eval_cases(d2)
+        ctx.rules.append("dispatcher scenarios: the real BlockchainRpcTxWatcher with its own block polling and dispatcher; 1-3 swaps whose confirmation callback runs 0.9-2.5 s while blocks arrive every 0.6-0.7 s, another swap's output maturing 4-8 blocks after it was mined; expected: the CSV notification is delivered (25 s limit)")
+        ctx.absorb(res2, "disp", signature=lambda c: "dispatcher:blocks-no-longer-delivered-after-a-slow-confirmation-callback",
+                   mismatch_is_violation=False,
+                   describe=lambda c: "the RPC watcher stopped delivering blocks: a confirmation callback ran for %s ms, blocks every %s ms, and the CSV notification of another swap (csv %s) never arrived" % (
+                       c.get("slow_confirmation_callback_ms"), c.get("block_interval_ms"), c.get("csv")))
 
 
 def search(ctx):
